@@ -21,7 +21,8 @@ DRIVER = "c15_driver.py"
 KEY = {1: "reject/bracketed-anytrait", 2: "accept/outside-documented-language", 3: "compile-error/duplicate-branch",
        4: "meaning/paths-or-notify", 5: "compile-error/distinct-paths", 6: "reject/documented-string",
        7: "spelling/acceptance-differs", 8: "spelling/graphs-differ", 9: "spelling/python-eq-false",
-       10: "spelling/hash-differs", 11: "exception/not-ValueError"}
+       10: "spelling/hash-differs", 11: "exception/not-ValueError", 12: "equality/different-patterns-compare-equal",
+       13: "cache/answer-changes-between-calls"}
 _W = re.compile(r"\w")
 
 
@@ -57,10 +58,18 @@ def outcome_term(o):
     return C("Crashed")
 
 
+def expr_term(e):
+    if e[0] == "single":
+        return C("ESingle", node_term(e[1]))
+    return C("ESeries" if e[0] == "series" else "EPar", expr_term(e[1]), expr_term(e[2]))
+
+
 def to_term(case, ob):
+    if case["kind"] == "expr":
+        return C("ExprC", expr_term(case["e"]), outcome_term(ob))
     if case["kind"] == "single":
-        return C("Single", text_term(case["s"]), outcome_term(ob))
-    return C("Pair", text_term(case["s1"]), text_term(case["s2"]), outcome_term(ob["o1"]), outcome_term(ob["o2"]),
+        return C("Single", text_term(case["s"]), outcome_term(ob), bool(ob.get("stable", True)))
+    return C("Pair", bool(case.get("same", True)), text_term(case["s1"]), text_term(case["s2"]), outcome_term(ob["o1"]), outcome_term(ob["o2"]),
              bool(ob["pyeq"]), bool(ob["hasheq"]))
 
 
@@ -83,11 +92,11 @@ def npaths(t):
 
 
 def gen_tree(rnd, depth, terminal, doc_valid=True):
-    """Random tree (see gen_tree1) denoting at most 150 paths: "items" is a four-way alternative, so a series of
+    """Random tree (see gen_tree1) denoting at most 48 paths: "items" is a four-way alternative, so a series of
     k of them denotes 4^k paths and the compiled graphs (and the cost of hashing them) grow accordingly."""
     while True:
         t = gen_tree1(rnd, depth, terminal, doc_valid)
-        if npaths(t) <= 150:
+        if npaths(t) <= 48:
             return t
 
 
@@ -172,6 +181,29 @@ def rotate(rnd, t):
     return t
 
 
+def perturb(rnd, t):
+    """Change one leaf or one connector (the result denotes other paths, or - rarely - the same)."""
+    k = t[0]
+    if k == "series":
+        c = rnd.random()
+        if c < 0.3:
+            return ("series", t[1], ":" if t[2] == "." else ".", t[3])
+        if c < 0.65:
+            return ("series", perturb(rnd, t[1]), t[2], t[3])
+        return ("series", t[1], t[2], perturb(rnd, t[3]))
+    if k == "par":
+        if rnd.random() < 0.5:
+            return ("par", perturb(rnd, t[1]), t[2])
+        return ("par", t[1], perturb(rnd, t[2]))
+    if k == "trait":
+        return ("trait", t[1] + "q")
+    if k == "meta":
+        return ("meta", t[1] + "q")
+    if k == "items":
+        return ("trait", "item")
+    return ("trait", "anyq")
+
+
 def star_inside_brackets(s):
     d = 0
     for ch in s:
@@ -208,13 +240,85 @@ def corpus():
              ("a.[b,c]:d", "[a].[[b],c]:[d]"), ("a.items:b", "a . items : b"), ("a.b.*", "[a.b].*"),
              ("x.+m,y", "[x.+ m],[y]")]
     cs += [dict(kind="pair", s1=a, s2=b) for a, b in pairs]
-    return cs
+    diff = [("a.b", "a.c"), ("a.b", "a:b"), ("a.[b,c]", "a.[b,d]"), ("a.items", "a.item"), ("a.+m", "a.+n"), ("a.*", "a.b"),
+            ("a.b.c", "a.b.d"), ("a,b", "a,c"), ("x.[a.b,c]", "x.[a:b,c]")]
+    cs += [dict(kind="pair", same=False, s1=a, s2=b) for a, b in diff]
+    return cs + expr_corpus()
+
+
+def enum_trees(depth):
+    """All trees of nesting depth <= depth over the leaves a, b, items, +a, * (star at any position)."""
+    leaves = [("trait", "a"), ("trait", "b"), ("items",), ("meta", "a"), ("any",)]
+    cur = list(leaves)
+    for _ in range(depth):
+        nxt = list(leaves)
+        nxt += [("series", l, c, r) for l in cur for c in ".:" for r in cur]
+        nxt += [("par", l, r) for l in cur for r in cur]
+        cur = nxt
+    return cur
+
+
+def derivation_cases(rnd, ctx, quick):
+    """Every derivation shape up to depth 1 (quick: plus a sample of depth 2; thorough: all 19 280 of depth 2),
+    spelled with the brackets the grammar needs."""
+    ts = enum_trees(1)
+    d2 = enum_trees(2)[len(enum_trees(0)):]
+    ts = ts + (rnd.sample(d2, 500) if quick else d2)
+    ts = [t for t in ts if npaths(t) <= 48]
+    ctx.count("gen:enumerated-derivations", len(ts))
+    return [dict(kind="single", s=render(rnd, t)) for t in ts]
+
+
+def gen_node(rnd):
+    k = rnd.random()
+    w = [ord(ch) for ch in rnd.choice(NAMES)]
+    n, o = rnd.random() < 0.5, rnd.random() < 0.5
+    if k < 0.45:
+        return ["N", w, n, o]
+    if k < 0.55:
+        return ["F", n, "any"]
+    if k < 0.70:
+        return ["F", n, ["meta", w]]
+    return [rnd.choice("DLS"), n, o]
+
+
+def gen_expr(rnd, depth):
+    r = rnd.random()
+    if depth <= 0 or r < 0.3:
+        return ["single", gen_node(rnd)]
+    if r < 0.7:
+        return ["series", gen_expr(rnd, depth - 1), gen_expr(rnd, depth - 1)]
+    return ["par", gen_expr(rnd, depth - 1), gen_expr(rnd, depth - 1)]
+
+
+def expr_npaths(e):
+    if e[0] == "single":
+        return 1
+    a, b = expr_npaths(e[1]), expr_npaths(e[2])
+    return a * b if e[0] == "series" else a + b
+
+
+def expr_corpus():
+    a, b = ["single", ["N", [97], True, False]], ["single", ["N", [98], True, False]]
+    li = ["single", ["L", True, False]]
+    es = [a, ["series", a, b], ["par", a, b], ["series", a, ["par", b, b]], ["series", ["par", a, a], b],
+          ["series", ["series", a, li], ["series", li, b]], ["series", a, ["par", ["series", b, a], ["series", b, a]]]]
+    return [dict(kind="expr", e=e, style=st) for e in es for st in (0, 1, 2)]
 
 
 def gen_cases(rnd, ctx, n):
     cs = []
     for _ in range(n):
         r = rnd.random()
+        if r < 0.10:
+            while True:
+                e = gen_expr(rnd, rnd.randint(0, 4))
+                if expr_npaths(e) <= 48:
+                    break
+            cs.append(dict(kind="expr", e=e, style=rnd.randint(0, 2)))
+            ctx.count("gen:expression-api")
+            continue
+        r = (r - 0.10) / 0.90
         if r < 0.30:
             t = gen_tree(rnd, rnd.randint(1, 5), True)
             cs.append(dict(kind="single", s=render(rnd, t, ws=rnd.choice([0, 0, 0.3]), extra=rnd.choice([0, 0.2]))))
@@ -233,6 +337,11 @@ def gen_cases(rnd, ctx, n):
         elif r < 0.80:
             cs.append(dict(kind="single", s="".join(rnd.choice(enc.ALPHABET) for _ in range(rnd.randint(7, 16)))))
             ctx.count("gen:random-symbols")
+        elif r < 0.86:
+            # two different patterns: one leaf or connector of the tree changed
+            t = gen_tree(rnd, rnd.randint(1, 4), True)
+            cs.append(dict(kind="pair", same=False, s1=render(rnd, t), s2=render(rnd, perturb(rnd, t))))
+            ctx.count("gen:two-different-patterns")
         else:
             # both spellings must stay inside the parser's language: no '*' inside (needed) brackets (F10)
             while True:
@@ -251,13 +360,17 @@ def gen_cases(rnd, ctx, n):
 def describe(case, ob, code):
     which = 2 if 20 < code < 40 else 1
     clause = code - 20 if 20 < code < 40 else code
+    if case["kind"] == "expr":
+        return "expression %s built through the API (style %d): %s (compile_expr: %s)" % (
+            json.dumps(case["e"]), case.get("style", 0), KEY.get(clause, clause), json.dumps(ob)[:300])
     if case["kind"] == "single":
         txt, o = case["s"], ob
     else:
         txt, o = (case["s1"], ob["o1"]) if which == 1 else (case["s2"], ob["o2"])
-    if clause in (7, 8, 9, 10):
-        return "spellings %r and %r of one expression: %s (outcomes %s / %s, python == %s, hashes equal %s)" % (
-            case["s1"], case["s2"], KEY[clause], ob["o1"]["o"], ob["o2"]["o"], ob["pyeq"], ob["hasheq"])
+    if clause in (7, 8, 9, 10, 12):
+        return "texts %r and %r (%s): %s (outcomes %s / %s, python == %s, hashes equal %s)" % (
+            case["s1"], case["s2"], "two spellings of one expression" if case.get("same", True) else "different patterns",
+            KEY[clause], ob["o1"]["o"], ob["o2"]["o"], ob["pyeq"], ob["hasheq"])
     return "text %r: %s (implementation: %s)" % (txt, KEY.get(clause, clause), json.dumps(o)[:300])
 
 
@@ -279,7 +392,7 @@ def shrink(ctx, case, clause):
     if case["kind"] != "single":
         return case, None
     best, best_ob = case, None
-    for rnd_ in range(8):
+    for rnd_ in range(25):
         s = best["s"]
         if len(s) <= 1:
             break
@@ -302,7 +415,10 @@ def run_cases(ctx, cases, tag, relation):
                  dict(relation=relation, error=err[-2000:]), no_input=True)
         return
     for c, o in zip(cases, obs):
-        if c["kind"] == "single":
+        if c["kind"] == "expr":
+            ctx.case_seen("e:%d:%s" % (c.get("style", 0), json.dumps(c["e"])), True)
+            ctx.count("outcome-expr:" + o["o"])
+        elif c["kind"] == "single":
             ctx.case_seen("s:" + c["s"], o["o"] != "rej")
             ctx.count("outcome:" + o["o"])
         else:
@@ -334,7 +450,7 @@ def run_cases(ctx, cases, tag, relation):
         i = bad[0]
         ctx.fail("corr/compile_str", "model and implementation disagree on %d texts, e.g. %r; the law holds on the "
                  "implementation's observation there, so the property is no longer shown" % (
-                     len(bad), cases[i].get("s", cases[i].get("s1"))),
+                     len(bad), cases[i].get("s", cases[i].get("s1", cases[i].get("e")))),
                  dict(kind="correspondence-broken", relation=relation, case=cases[i], impl_obs=obs[i]), no_input=True)
     if fuel:
         i = fuel[0][0]
@@ -473,7 +589,7 @@ def run(ctx):
     quick = ctx.tier == "quick"
     # embedded cases first (corpus includes the triggers of the listed findings)
     t0 = time.time()
-    cases = corpus() + gen_cases(rnd, ctx, 2500 if quick else 40000)
+    cases = corpus() + derivation_cases(rnd, ctx, quick) + gen_cases(rnd, ctx, 1500 if quick else 30000)
     for c in cases[:2] + cases[-2:]:
         ctx.sample(c)
     run_cases(ctx, cases, "cases", "C15.Corr.corr_codes (Model.compile_str = parse/compile_str on every text)")
@@ -486,7 +602,7 @@ def run(ctx):
     run_grid(ctx, shards, "exhaustive_le_%d" % top, per_file=1 if quick else 4)
     t2 = time.time()
     win = []
-    for L, n in ((6, 40), (7, 40), (8, 20)) if quick else ((7, 600), (8, 400), (9, 200)):
+    for L, n in ((6, 40), (7, 40), (8, 20)) if quick else ((7, 2500), (8, 800), (9, 300)):
         win += windows(rnd, L, n)
     run_grid(ctx, win, "windows", per_file=8 if quick else 40)
     ctx.cov["timing_s"] = dict(embedded_cases=round(t1 - t0, 1), exhaustive_grid=round(t2 - t1, 1),
